@@ -498,3 +498,13 @@ package cte
 //@   ensures len(data) > 0 && old(_this.hasWrittenElements) ==> out[old(outLen)] == ' '
 //@   ensures forall j uint64 :: j < old(outLen) ==> out[j] == old(out[j])
 //@   xensures wfailed
+
+// String-like arrays (C23): the text is collected across data events and chunks and written once at
+// the end; each data event appends exactly its bytes to what was collected before, whatever the
+// chunking (nothing collected earlier is lost or moved).
+//@ func (*arrayEncoderEngine).appendStringbuffer
+//@   requires len(_this.stringBuffer) + len(data) <= 0x10000000000
+//@   modifies _this.stringBuffer, mem(_this.stringBuffer), alloc
+//@   ensures len(_this.stringBuffer) == old(len(_this.stringBuffer)) + len(data)
+//@   ensures forall i int :: 0 <= i && i < old(len(_this.stringBuffer)) ==> _this.stringBuffer[i] == old(_this.stringBuffer[i])
+//@   ensures forall i int :: 0 <= i && i < len(data) ==> _this.stringBuffer[old(len(_this.stringBuffer)) + i] == old(data[i])
